@@ -426,3 +426,17 @@ for _which in ("first", "last"):
         c.requires("wf", lambda x: wf0(x))
         c.requires("kind is a str", lambda x: kind_is_str(x) if not z3.eq(x.a.kind, ANY_KIND) else True)
         c.ensures(f"result == {_which} top-level node of that kind or None", _tree_first_last(_which))
+
+
+# ------------------------------------------------------------------ TypedNode.move_to: not supported, refused before anything is touched
+@contract(Q + "move_to", props=("C13", "C01", "C04"))
+def _(c):
+    """Typed nodes cannot be moved: every call is refused with NotImplementedError and nothing is written
+    (C13: an unsupported move leaves the tree observably unchanged)."""
+    c.param("self", "node").param("new_parent", "node", "tree").param("before", "none", "true", "int", "node")
+    c.families = ("typed",)
+    c.result_tag = "none"
+    c.pure()
+    c.requires("wf, self is a member", lambda x: And(wf0(x), x.h0.mem(x.T, x.a.self)))
+    c.raises("NotImplementedError", when=lambda x: z3.BoolVal(True), ensures=lambda x: z3.BoolVal(not (x.h0.changed(x.h) - set(L.GHOST))), props=("C13",))
+    c.ensures("never returns normally", lambda x: z3.BoolVal(False))
